@@ -152,13 +152,42 @@ fn run<const K: usize>(case: u64, rng: &mut Rng, ev: &mut Ev) {
     for x in &pts {
         let xq = qv(x);
         let fx = f_before.eval(&xq);
+        // float regimes: h's stored coefficients are rounded products; a rigorous bound on the effect
+        // of that rounding on every decision of g along the route decides whether x can be asserted
+        let mut val_tol: Vec<f64> = Vec::new();
         let expect: TEv = match &fx {
-            TEv::Val(_, y) => {
-                if !exact && !route_safe_q(&g_before, y) {
-                    ev.skip("f(x) within rounding distance of a hyperplane of g (float regime)");
-                    continue;
+            TEv::Val(tn, y) => {
+                let gy = g_before.eval(y);
+                if !exact {
+                    let t = f_before.node(*tn);
+                    // magnitude of the terms behind component i of y = M x + c
+                    let ymag: Vec<f64> = (0..t.mat.len())
+                        .map(|i| t.mat[i].iter().zip(x.iter()).map(|(m, v)| (m * v).abs()).sum::<f64>() + t.bias[i].abs())
+                        .collect();
+                    let (_, route) = g_before.eval_from(g_before.root, y);
+                    let mut safe = true;
+                    for (gn, _) in &route {
+                        let nd = g_before.node(*gn);
+                        for (row, b) in nd.mat.iter().zip(nd.bias.iter()) {
+                            let bound: f64 = row.iter().zip(ymag.iter()).map(|(a, m)| a.abs() * m).sum::<f64>() + b.abs();
+                            let v = crate::q::dot(&qv(row), y).sub(&crate::q::Q::from_f64(*b)).to_f64().abs();
+                            if v <= 1e-12 * bound {
+                                safe = false;
+                            }
+                        }
+                    }
+                    if !safe {
+                        ev.skip("f(x) within the rounding error bound of a hyperplane of g (float regime)");
+                        continue;
+                    }
+                    if let TEv::Val(gt, _) = &gy {
+                        let nd = g_before.node(*gt);
+                        for (row, b) in nd.mat.iter().zip(nd.bias.iter()) {
+                            val_tol.push(1e-12 * (row.iter().zip(ymag.iter()).map(|(a, m)| a.abs() * m).sum::<f64>() + b.abs()) + 1e-300);
+                        }
+                    }
                 }
-                g_before.eval(y)
+                gy
             }
             TEv::Undef(a, b) => TEv::Undef(*a, *b),
             TEv::Broken(b) => {
@@ -166,10 +195,6 @@ fn run<const K: usize>(case: u64, rng: &mut Rng, ev: &mut Ev) {
                 continue;
             }
         };
-        if !exact && !gen::route_rounding_safe(&f_before, x) {
-            ev.skip("x within rounding distance of a hyperplane of f (float regime)");
-            continue;
-        }
         let hx = hs.eval(&xq);
         match (&expect, &hx) {
             (TEv::Val(_, a), TEv::Val(_, b)) => {
@@ -178,7 +203,7 @@ fn run<const K: usize>(case: u64, rng: &mut Rng, ev: &mut Ev) {
                         && if exact {
                             a[i] == b[i]
                         } else {
-                            (a[i].to_f64() - b[i].to_f64()).abs() <= 1e-9 * (1.0 + a[i].to_f64().abs() + x.iter().map(|v| v.abs()).sum::<f64>() * 50.0)
+                            (a[i].to_f64() - b[i].to_f64()).abs() <= val_tol.get(i).cloned().unwrap_or(0.0)
                         };
                     if !ok {
                         fail!("c02:value", format!("x={:?}: h(x)={:?} but g(f(x))={:?}", x, b.iter().map(|q| q.to_f64()).collect::<Vec<_>>(), a.iter().map(|q| q.to_f64()).collect::<Vec<_>>()));
@@ -189,10 +214,6 @@ fn run<const K: usize>(case: u64, rng: &mut Rng, ev: &mut Ev) {
                 n_undef += 1;
             }
             (a, b) => {
-                if !exact && !gen::route_rounding_safe(&hs, x) {
-                    ev.skip("x within rounding distance of a hyperplane of h (float regime)");
-                    continue;
-                }
                 fail!("c02:definedness", format!("x={:?}: h(x) is {} but g(f(x)) is {}", x, b.brief(), a.brief()));
             }
         }
